@@ -91,7 +91,11 @@ func (ms *metaStore) loadMeta(bucket string, object string, size int64, mtime ti
 	var meta Metadata
 	if len(bts) > 0 {
 		if err := json.Unmarshal(bts, &meta); err != nil {
-			return nil, err
+			// A record that was only partly written (the process was killed
+			// while saving it) is as good as a missing one: rebuild it from
+			// the object instead of failing every read and listing of the
+			// bucket from now on.
+			meta = Metadata{}
 		}
 	}
 
